@@ -327,16 +327,24 @@ class Job:
                         replay=(replay[0], dict(replay[1], hang=True)) if replay else None)
 
     # -- validation
-    def differential(self, R, lifted_view, native_view, what=''):
+    def differential(self, R, lifted_view, native_view, what='', replay=None):
         """lifted result evaluated under R random models must equal the native function on the
-        concretised input; a mismatch is an encoder bug (harness error)"""
+        concretised input; a mismatch is an encoder bug (harness error) - unless, with a replay recipe given, the SEQUENCE
+        of native calls made so far (one process, one call per model) is re-run in a fresh native interpreter and the
+        property's native judge sees a violation on one of them: then the native library answers differently after earlier
+        calls (hidden state), which is a history-dependent violation and is reported as such by the driver"""
         models = random_models(self.rng, R)
         ev = Evaluator(E.dag, models)
         checked = 0
+        self._hist = []
+        self._hist_on = replay is not None
         for i in range(R):
             mv = ModelView(ev, i)
             if not all(mv(a) for a in E.assumptions):
                 continue
+            if replay is not None:
+                kind, extra = replay
+                self._hist.append({'kind': kind, **{k: (v(mv) if callable(v) else v) for k, v in extra.items()}})
             try:
                 exp = native_view(mv)
                 nexc = None
@@ -365,6 +373,8 @@ class Job:
         # explains it (e.g. a result that depends on the set iteration order, where the native run
         # follows one order and the random model another)
         self.result.setdefault('differential_mismatch', msg[:1500])
+        if getattr(self, '_hist_on', False) and 'differential_history' not in self.result:
+            self.result['differential_history'] = list(self._hist)
         return 0
 
     def decode(self, mv):
